@@ -14,6 +14,9 @@ from fjv.runner import Run, Sieve, parse_args, pmap, load_replay, main_guard
 PROP = 'C01'
 WIDTHS = (8, 16, 32, 64)
 RUNS = (('trace', 'ring'), ('fast', 'ring'), ('fast', None), ('native', 'ring'), ('native', None))
+# the native engine's page-backed loop (forced by FLIPJUMP_NO_FLAT) - added for the layouts with a far segment
+RUNS_PAGED = RUNS + (('native-paged', 'ring'), ('native-paged', None))
+PAGED_LAYOUTS = ('two-', 'page-edge', 'lazy-desc')
 
 
 def layouts(w, tier):
@@ -50,6 +53,11 @@ def layouts(w, tier):
               3 * w + w.bit_length()]
         lw = [v for v in dict.fromkeys(lw) if v < (1 << w)]
         out['lazy-desc'] = ([(F2, 2 + 1000), (F1, 2 + 1200), (0, tail)], [0, 1, 2, 3], lw, {F1: 0, F1 + 1: F1 * w, F2: 2 * w + 1, F2 + 1: F1 * w})
+    # a far segment 16 pages away (the same slot of the engine's 16-entry page cache as page 0), ops on the last word of the near segment
+    if w >= 32:
+        A = 16 << 14
+        aw = [0, 2 * w, 2 * w + 1, 3 * w, w + 1, A * w, A * w + 1, (A + 5) * w + 3, (A + 7) * w, (A + 8) * w, 4 * w, 3 * w + w.bit_length()]
+        out['two-alias'] = ([(0, 4), (A, 8)], [0, 1, 2, 3], aw, {A: 2 * w + 1, A + 1: 3 * w, A + 2: 0, A + 3: A * w})
     # a far segment whose loaded data starts inside one 16K-word page and runs into the next one
     if w >= 32:
         P = 1 << 14
@@ -89,14 +97,14 @@ def make_tasks(tier, only=None):
     return tasks
 
 
-def check_case(image, answers, r, max_records=3):
+def check_case(image, answers, r, max_records=3, runs=RUNS):
     """run every engine variant on one (image, answers) case; return violation records."""
     from fjv.enginecheck import write_image, compare, HORIZON
     from fjv.engines import run_engine
     path = write_image(image)
     recs = []
     nruns = 0
-    for engine, ring in RUNS:
+    for engine, ring in runs:
         ringlen = HORIZON + 1 if ring else None
         dev = DEVICE(answers)
         o = run_engine(path, engine, dev, ring=ringlen, timeout=1.0)
@@ -166,7 +174,7 @@ def work(task):
                 stats['nontrivial'] += 1
             for f in fs:
                 hist[f] = hist.get(f, 0) + 1
-            rr, n = check_case(image, answers, r)
+            rr, n = check_case(image, answers, r, runs=RUNS_PAGED if name.startswith(PAGED_LAYOUTS) else RUNS)
             stats['engine_runs'] += n
             for x in rr:
                 sieve.add(x)
@@ -277,7 +285,7 @@ def replay(args):
     case = rec['case']
     image = R1.Image.from_json(case['image'])
     r = R1.run(image, case['answers'], case.get('horizon', 64))
-    recs, _ = check_case(image, case['answers'], r, max_records=10)
+    recs, _ = check_case(image, case['answers'], r, max_records=10, runs=RUNS_PAGED)
     print('reference:', {'cause': r.cause, 'ops': r.ops, 'fault': r.fault, 'io': r.io, 'steps': r.steps})
     for x in recs:
         print('DIFF', x['case']['engine'], x['case']['ring'], 'expected', x['expected'], 'observed', x['observed'])
